@@ -343,6 +343,39 @@ def retarget(op, iid, ch0, ch):
     return o
 
 
+def variant_paths(paths_file):
+    """Paths to every node of the lock-step exploration (on the unchanged tree: one per spec state)."""
+    return paths_file[:-len(".paths")] + ".variantpaths"
+
+
+def sweep_roundtrip(ctx, paths_file, kind, to, max_states):
+    """C07 / C10 / C12 'whatever it has been fed before': after the access path of every explored node
+    the real encoding of a few messages (semantically loaded controllers / numbers and a random one)."""
+    rows = []
+    for st in load_paths(paths_file, ctx, max_states):
+        ch = ctx.rng.randrange(16)
+        rows.append({"op": "new", "id": 1, "k": kind, "to": to})
+        for op in st["path"]:
+            rows.append(retarget(op, 1, 0, ch))
+        if kind == "cc14":
+            for cn in ctx.rng.sample([0, 1, 6, 7, 10, 11], 2) + [ctx.rng.randrange(32)]:
+                rows.append({"op": "enc14", "id": 1, "msg": [ch, cn, ctx.rng.choice([0, 1, 129, 8256, 16383, ctx.rng.randrange(16384)])],
+                             "fac": "raw"})
+        else:
+            for _ in range(3):
+                msg = gen.rand_pn_msg(ctx.rng)
+                msg[0] = ch
+                if kind == "pn":
+                    rows.append({"op": "encpn", "id": 1, "msg": msg, "ord": "lsb", "fac": "raw"})
+                else:
+                    ord_ = ctx.rng.choice(["msb", "lsb"])
+                    n = 4 if msg[4] == 1 else 3
+                    rows.append({"op": "encpn", "id": 1, "msg": msg, "ord": ord_, "gk": "rtp", "more": 1, "fac": "raw"})
+                    rows.append({"op": "tick", "id": 1, "dt": max(to, 0)})
+                    rows.append({"op": "poll", "id": 1, "ch": ch, "grp": {"k": "rtp", "i": n + 1, "n": n + 1, "msg": msg, "ord": ord_}})
+    return rows
+
+
 def sweep_transparent(ctx, paths_file, kind, to, per_state, max_states):
     """C16: in every reachable specification state, feed non-contributing messages."""
     rows = []
